@@ -168,6 +168,12 @@ def random_cases(family, rng, count):
             lr, rr = rng.random() < 0.5, rng.random() < 0.5
             lq, rq = Fraction(rng.randint(-2, 8), 8), Fraction(rng.randint(0, 10), 8)
             out.append({"fn": "truncate", "x": X, "y": Y, "left": R(lq if lr else xs[0] + lq * span), "right": R(rq if rr else xs[0] + rq * span), "lr": lr, "rr": rr})
+            # abscissae inside [0, 1] (fractions of a day): ratios and positions look alike, the flags must decide (seed C08j)
+            ux = [Fraction(1, 4) + (v - xs[0]) / span / 2 for v in xs]
+            if max(v.denominator for v in ux) <= 4096:
+                lq3, rq3 = Fraction(rng.randint(0, 3), 16), Fraction(rng.randint(13, 16), 16)
+                out.append({"fn": "truncate", "x": [R(v) for v in ux], "y": Y, "left": R(lq3), "right": R(rq3), "lr": True, "rr": True})
+                out.append({"fn": "truncate", "x": [R(v) for v in ux], "y": Y, "left": R(Fraction(1, 4) + lq3 / 2), "right": R(rq3), "lr": False, "rr": True})
             # the same request after the series was made denser than its reference (interpolate(m), m - 1 a power of two: the
             # grid and the bounds stay exact): working and reference are cut with the same bounds, not the same indices
             m = rng.choice([5, 9, 17])
